@@ -1,7 +1,7 @@
 """C06 — decided on the scheduler LTS (see tools/schedprops.py, coq/Conc/Sched*.v)."""
 import schedprops, schedgen
 ID = "C06"
-COQ_TARGETS = schedprops.SCHED_TARGETS + ["Extract_Sched.vo"]
+COQ_TARGETS = schedprops.SCHED_TARGETS + ["Properties_SchedStop.vo", "Extract_Sched.vo"]
 DRIVERS = ["sched"]
 
 
@@ -13,15 +13,15 @@ FAMS = [schedgen.gen_xjoin, schedgen.gen_suspend, schedgen.gen_mig_switch]
 NAME_RE = r"^(C06_|SchedCount_invariant|C11_suspend_counts|C11_resume_decrements)"
 MANIFEST = {
     "text": "Theorems (Coq, every number of units/pools, every interleaving of the scheduler LTS whose labels are the ABT_VERIF hook "
-            "records): num_blocked equals the size of the ghost multiset of counted units, is never negative, is >= 1 while a unit of the pool is blocked, about to be published as blocked or resumed but not yet pushed back, equals the number of such units when no late decrement is outstanding, and a resumer's decrement never uncounts a unit before its push. Tie: generated scenarios run on the real runtime (1-4 streams, FIFO/FIFO_WAIT/RANDWS pools, all predefined "
+            "records): num_blocked equals the size of the ghost multiset of counted units, is never negative, is >= 1 while a unit of the pool is blocked, about to be published as blocked or resumed but not yet pushed back, equals the number of such units when no late decrement is outstanding, and a resumer's decrement never uncounts a unit before its push; the stop decision of a main scheduler is sound for a pool only it consumes (C06_stop_sound: num_blocked(p) = 0 read in a state where no executor holds a unit of p, the queue of p read empty later, no work arriving from outside in between => every unit of p has terminated, and this persists), while the single evaluation 'empty, then zero' is refuted (C06_single_evaluation_refuted). Tie: generated scenarios run on the real runtime (1-4 streams, FIFO/FIFO_WAIT/RANDWS pools, all predefined "
             "schedulers, ULTs/tasklets/external threads); every recorded atomic action must be enabled in the model with the recorded "
             "values (state loads, request bits, num_blocked, queue emptiness); API-level monitors (entry counts, arguments, return codes, "
-            "pool sizes at quiescence, join/xstream-join postconditions, watchdog) run on every execution.",
+            "pool sizes at quiescence, join/xstream-join postconditions, watchdog) run on every execution; at every recorded stop of a main scheduler the trace monitor requires the scheduler's own observations to contain 'num_blocked = 0, then queue empty' for each pool it consumes alone, evaluates the theorem's hypotheses on the model state and, where they hold, its conclusion.",
     "note": schedprops.NOTE,
     "technique": schedprops.TECH,
 }
 
 
 def run(tier, seed, replay):
-    return schedprops.run(ID, NAME_RE, FAMS, tier, seed, replay,
+    return schedprops.run(ID, NAME_RE, FAMS, tier, seed, replay, files=schedprops.SCHED_FILES + ["Properties_SchedStop.v"],
                           rule="seeded scenario families %s; every history replayed through the extracted LTS; non-trivial = all (each scenario has >= 1 unit)" % [f.__name__ for f in FAMS])
